@@ -170,6 +170,13 @@ def gen_case(r, pid=None):
                 auto_selector=r.choice([None, None, None, "scale_left_2018", "m", ""]),
                 robot_split=(r.randrange(0, ncomp + 1) if ncomp and r.random() < 0.3 else 0),
                 ticks=ticks, raises=[], writes={}, fbval={}, comp_root=comp_root, fb_anon=r.random() < 0.3)
+    # some control words arrive while the previous pass is still running (not while the loop sleeps): they count from the
+    # top of the next pass all the same
+    if r.random() < 0.35:
+        cand_ = [ti for ti in range(2, len(ticks)) if isinstance(ticks[ti], list) and ticks[ti][0] != "fms"
+                 and isinstance(ticks[ti - 1], list) and ticks[ti - 1][0] != "fms"]
+        r.shuffle(cand_)
+        case["early_word"] = sorted(cand_[:r.choice([1, 2, 4])])
     blocks, _ = spec_sites(case)
     flat = [s for b in blocks for s in b]
     total = len(flat)
